@@ -343,35 +343,35 @@ theorem lpCore_obj (eps : Rat) (rows : List Row) (artRows : List Bool) (isArt : 
 
 /-! ### the master LP of `solve_cg` -/
 
-theorem masterRow_length (cols : List Pat) (d : List Nat) (m i : Nat) :
-    (masterRow cols d m i).length = cols.length + 2 * m + 1 := by
-  simp [masterRow]; omega
+theorem rget_rangeMap (w : Nat) (f : Nat → Rat) (j : Nat) (hj : j < w) :
+    rget ((List.range w).map f) j = f j := by
+  simp [rget, List.getD_eq_getElem?_getD, List.getElem?_map, List.getElem?_range hj]
 
-theorem masterRow_x (cols : List Pat) (d : List Nat) (m i j : Nat) (hj : j < cols.length) :
-    rget (masterRow cols d m i) j = (((cols.getD j []).getD i 0 : Nat) : Rat) := by
-  unfold rget masterRow
-  rw [List.getD_eq_getElem?_getD, List.append_assoc, List.append_assoc,
-    List.getElem?_append_left (by simpa using hj)]
-  simp [List.getElem?_map, List.getElem?_eq_getElem hj, List.getD_eq_getElem?_getD]
+theorem masterRow_length (cols : List Pat) (d : List Nat) (i : Nat) :
+    (demandRow cols d 0 0 i).length = cols.length + 2 * d.length + 1 := by
+  simp [demandRow]; omega
 
-theorem masterRow_surplus (cols : List Pat) (d : List Nat) (m i k : Nat) (hk : k < m) :
-    rget (masterRow cols d m i) (cols.length + k) = if k = i then -1 else 0 := by
-  unfold rget masterRow
-  rw [List.getD_eq_getElem?_getD, List.append_assoc, List.append_assoc,
-    List.getElem?_append_right (by simp), List.getElem?_append_left (by simpa using hk)]
-  simp [List.getElem?_map, List.getElem?_range hk]
+theorem masterRow_x (cols : List Pat) (d : List Nat) (i j : Nat) (hj : j < cols.length) :
+    rget (demandRow cols d 0 0 i) j = (((cols.getD j []).getD i 0 : Nat) : Rat) := by
+  unfold demandRow
+  dsimp only
+  rw [rget_rangeMap _ _ _ (by omega), if_pos hj]
 
-theorem masterRow_rhs (cols : List Pat) (d : List Nat) (m i : Nat) :
-    rget (masterRow cols d m i) (cols.length + 2 * m) = ((d.getD i 0 : Nat) : Rat) := by
-  unfold rget masterRow
-  rw [List.getD_eq_getElem?_getD, List.append_assoc, List.append_assoc,
-    List.getElem?_append_right (by simp), List.getElem?_append_right (by simp; omega),
-    List.getElem?_append_right (by simp; omega)]
-  have : cols.length + 2 * m - (List.map (fun c => ((c.getD i 0 : Nat) : Rat)) cols).length
-      - (List.map (fun k => if (k == i) = true then (-1 : Rat) else 0) (List.range m)).length
-      - (List.map (fun k => if (k == i) = true then (1 : Rat) else 0) (List.range m)).length = 0 := by
-    simp; omega
-  rw [this]; simp
+theorem masterRow_surplus (cols : List Pat) (d : List Nat) (i k : Nat) (hk : k < d.length) :
+    rget (demandRow cols d 0 0 i) (cols.length + k) = if k = i then -1 else 0 := by
+  unfold demandRow
+  dsimp only
+  rw [rget_rangeMap _ _ _ (by omega), if_neg (by omega)]
+  by_cases h : k = i
+  · subst h; simp
+  · rw [if_neg (by omega), if_neg (by omega), if_neg (by omega), if_neg h]
+
+theorem masterRow_rhs (cols : List Pat) (d : List Nat) (i : Nat) (hi : i < d.length) :
+    rget (demandRow cols d 0 0 i) (cols.length + 2 * d.length) = ((d.getD i 0 : Nat) : Rat) := by
+  unfold demandRow
+  dsimp only
+  rw [rget_rangeMap _ _ _ (by omega), if_neg (by omega), if_neg (by omega), if_neg (by omega),
+    if_pos (by omega)]
 
 theorem getD_rangeMap_list (m : Nat) (f : Nat → Row) (i : Nat) (hi : i < m) :
     ((List.range m).map f).getD i [] = f i := by
@@ -387,14 +387,14 @@ theorem masterCore_rows (cols : List Pat) (d : List Nat) (eps : Rat) (t : Tab) (
       rsum d.length (fun i => tget t d.length (cols.length + i) * ((d.getD i 0 : Nat) : Rat)) := by
   unfold masterCore at h
   dsimp only at h
-  have hlen : ((List.range d.length).map (masterRow cols d d.length)).length = d.length := by simp
+  have hlen : ((List.range d.length).map (demandRow cols d 0 0)).length = d.length := by simp
   obtain ⟨μ, hμ⟩ := lpCore_obj eps _ _ _ _ _ _ _ t b (by
     intro i hi
     rw [hlen] at hi
     rw [getD_rangeMap_list _ _ _ hi, masterRow_length]) h
   rw [hlen] at hμ
-  have hcomb : ∀ j, comb μ ((List.range d.length).map (masterRow cols d d.length)) j
-      = rsum d.length (fun k => μ k * rget (masterRow cols d d.length k) j) := by
+  have hcomb : ∀ j, comb μ ((List.range d.length).map (demandRow cols d 0 0)) j
+      = rsum d.length (fun k => μ k * rget (demandRow cols d 0 0 k) j) := by
     intro j
     unfold comb
     rw [hlen]
@@ -403,10 +403,10 @@ theorem masterCore_rows (cols : List Pat) (d : List Nat) (eps : Rat) (t : Tab) (
   have hdual : ∀ k, k < d.length → tget t d.length (cols.length + k) = -μ k := by
     intro k hk
     rw [hμ _ (by omega), hcomb]
-    have : rsum d.length (fun i => μ i * rget (masterRow cols d d.length i) (cols.length + k))
+    have : rsum d.length (fun i => μ i * rget (demandRow cols d 0 0 i) (cols.length + k))
         = rsum d.length (fun i => if i = k then -μ i else 0) :=
       rsum_congr _ _ _ (fun i _ => by
-        rw [masterRow_surplus _ _ _ _ _ hk]
+        rw [masterRow_surplus _ _ _ _ hk]
         by_cases hik : k = i
         · subst hik; simp
         · have : ¬ i = k := fun h => hik h.symm
@@ -417,14 +417,14 @@ theorem masterCore_rows (cols : List Pat) (d : List Nat) (eps : Rat) (t : Tab) (
   · intro j hj
     rw [hμ _ (by omega), hcomb]
     have : rsum d.length (fun i => tget t d.length (cols.length + i) * (((cols.getD j []).getD i 0 : Nat) : Rat))
-        = rsum d.length (fun i => (-1) * (μ i * rget (masterRow cols d d.length i) j)) :=
-      rsum_congr _ _ _ (fun i hi => by rw [hdual i hi, masterRow_x _ _ _ _ _ hj]; ring)
+        = rsum d.length (fun i => (-1) * (μ i * rget (demandRow cols d 0 0 i) j)) :=
+      rsum_congr _ _ _ (fun i hi => by rw [hdual i hi, masterRow_x _ _ _ _ hj]; ring)
     rw [this, rsum_mul_left]
     simp [costF, hj]
   · rw [hμ _ (by omega), hcomb]
     have : rsum d.length (fun i => tget t d.length (cols.length + i) * ((d.getD i 0 : Nat) : Rat))
-        = rsum d.length (fun i => (-1) * (μ i * rget (masterRow cols d d.length i) (cols.length + 2 * d.length))) :=
-      rsum_congr _ _ _ (fun i hi => by rw [hdual i hi, masterRow_rhs]; ring)
+        = rsum d.length (fun i => (-1) * (μ i * rget (demandRow cols d 0 0 i) (cols.length + 2 * d.length))) :=
+      rsum_congr _ _ _ (fun i hi => by rw [hdual i hi, masterRow_rhs _ _ _ hi]; ring)
     rw [this, rsum_mul_left]
     simp [costF]
 
